@@ -59,7 +59,7 @@ class Check(PropertyCheck):
     lean_targets = ['RegionsVerif.Props.C01', 'RegionsVerif.Props.C01Poly']
     namespaces = ['RegionsVerif.Props.C01']
     rule = ('every shape class x sizes 1e-3..1e6 x centres to 1e6 x any angle in deg/rad/arcmin/hourangle x include flag in '
-            '{absent, True, False, 1, 0} x query coordinates scalar / 0-length / 1-D / N-D, int or float; query points on a '
+            '{absent, True, False, 1, 0} x query coordinates scalar / 0-length / 1-D / N-D (C-, Fortran-ordered, transposed and strided views), int or float; query points on a '
             'cloud scaled to the shape and at relative distances 1e-6..1e-1 from its boundary. Non-trivial = the case has at '
             'least one point inside and one outside (after the boundary exception).')
     assumptions = ['points whose exact relative distance to the boundary is < 1e-9 are excepted (C01 itself excepts rounding)',
@@ -80,8 +80,9 @@ class Check(PropertyCheck):
                 d = G.gen_simple(rng, kind=rng.choice(G.EMPTY_KINDS))
             else:
                 d = G.gen_simple(rng, scale=1.0, center_scale=rng.choice([0, 10]))
-            qs = rng.choice(['scalar', 'scalar', 'empty', '1d', '1d', '2d', '3d'])
-            npts = {'scalar': 1, 'empty': 0, '1d': rng.randint(1, 40), '2d': 12, '3d': 8}[qs]
+            qs = rng.choice(['scalar', 'scalar', 'empty', '1d', '1d', '2d', '3d', '2dF', '2dT', '1dS'])
+            npts = {'scalar': 1, 'empty': 0, '1d': rng.randint(1, 40), '2d': 12, '3d': 8,
+                    '2dF': 12, '2dT': 12, '1dS': 9}[qs]
             pts = query_points(rng, d, npts)
             integer = rng.random() < 0.15
             if integer:
@@ -99,8 +100,20 @@ class Check(PropertyCheck):
         qs = case['qshape']
         if qs == 'scalar':
             return PixCoord(dt(xs[0]), dt(ys[0])), None
-        shape = {'empty': (0,), '1d': (len(xs),), '2d': (3, 4), '3d': (2, 2, 2)}[qs]
-        return PixCoord(np.array(xs, dtype=dt).reshape(shape), np.array(ys, dtype=dt).reshape(shape)), shape
+        shape = {'empty': (0,), '1d': (len(xs),), '2d': (3, 4), '3d': (2, 2, 2),
+                 '2dF': (3, 4), '2dT': (3, 4), '1dS': (len(xs),)}[qs]
+        ax = np.array(xs, dtype=dt).reshape(shape)
+        ay = np.array(ys, dtype=dt).reshape(shape)
+        # memory layouts other than C-contiguous: the answer must not depend on them
+        if qs == '2dF':
+            ax, ay = np.asfortranarray(ax), np.asfortranarray(ay)
+        elif qs == '2dT':
+            ax, ay = np.ascontiguousarray(ax.T).T, np.ascontiguousarray(ay.T).T
+        elif qs == '1dS':
+            bx = np.zeros(2 * len(xs), dtype=dt); by = np.zeros(2 * len(xs), dtype=dt)
+            bx[::2] = ax; by[::2] = ay
+            ax, ay = bx[::2], by[::2]
+        return PixCoord(ax, ay), shape
 
     def real(self, case):
         from regions import PixCoord
@@ -172,7 +185,8 @@ class Check(PropertyCheck):
             if real['dunder'] != real['ans'][0]:
                 bad('in_operator_disagrees', f'{real["dunder"]} vs {real["ans"]}')
         else:
-            exp = {'empty': [0], '1d': [len(case['pts'])], '2d': [3, 4], '3d': [2, 2, 2]}[qs]
+            exp = {'empty': [0], '1d': [len(case['pts'])], '2d': [3, 4], '3d': [2, 2, 2],
+                   '2dF': [3, 4], '2dT': [3, 4], '1dS': [len(case['pts'])]}[qs]
             if real['shape'] != exp:
                 bad('result_shape_wrong', f'{real["shape"]} != {exp}')
             if not real.get('dtype_bool', True):
